@@ -136,7 +136,7 @@ def install(lib):
             ob("non-blocking-machine-never-waits-with-a-finished-item",
                z3.Implies(z3.Not(blocking), z3.Not(z3.Or(*ws)) if ws else z3.BoolVal(True)), ("C09",))
             for nm, cl in tokens_consumed_clauses(st):
-                ob(nm, cl, ("C10",))
+                ob(nm, cl, ("C10", "C08"))
             ob("worker-slot-released", z3.BoolVal(bool(st.ghost.get("released"))), ("C08",))
             # C17: the finished worker removes itself (and nobody else) from the list of live workers
             lr = st.ghost.get("last_resume")
